@@ -21,7 +21,7 @@ ASSUMPTIONS = [
   "simultaneous cues with identical intervals under line_position=True count as non-overlapping",
   "per-character comparison only where the cue text itself is as expected (text faults are C06's clause)",
 ]
-REQUIRED = ["outputs:srt", "outputs:vtt", "cues:compared", "chars:compared", "class:markup-chars", "class:styled-spans", "reader-docs"]
+REQUIRED = ["outputs:srt", "outputs:vtt", "cues:compared", "chars:compared", "class:markup-chars", "class:styled-spans", "class:carry-offset", "reader-docs"]
 SHARD_TIMEOUT = {"quick": 900, "thorough": 7200}
 N = {"quick": 24, "thorough": 1000}
 SRC = os.path.join(core.REPO, "src/test/resources")
@@ -77,6 +77,12 @@ def run(ctx, params):
       rng = ctx.rng("doc", params["shard"], i)
       adoc0, classes = model_docs.generate(rng, "text", None, p_markup=0.15, arrow=(i % 3 == 0), p_anim=0.15, p_uspace=0.08 if i % 2 else 0.0)
       style_spans(rng, adoc0, classes)
+      if i % 5 == 2 and adoc0.body is not None:
+        # times whose rounding to the millisecond carries into the seconds, minutes and hours fields (begin < end and the
+        # order of cues are read from the printed time codes)
+        from vt.props import c06
+        c06.apply_carry(rng, adoc0)
+        classes = set(classes) | {"carry-offset"}
       s = build.dumps(adoc0)
       _cuework.check_doc(ctx, build.build_doc(adoc0), {"doc": s}, {"C07"}, classes)
     return
